@@ -65,6 +65,9 @@ func c12Exact(cx *explore.Ctx, q run.Query, r run.Result, body *hclsyntax.Body) 
 				// enabled extension precedes a declared attribute of the same name in every
 				// feature (hover, tokens, origins, targets, candidates)
 				desc = ""
+				if as, ok := bc.Eff.Attributes[name]; ok && as.Description.Value != "" && hd != nil && strings.Contains(hd.Content.Value, as.Description.Value) {
+					add("hover:content-of-shadowed-attribute", "attribute-name", fmt.Sprintf("the %s extension is enabled here and precedes the declared attribute of that name, yet hover carries the declared attribute's description %q", name, as.Description.Value))
+				}
 			} else if as, ok := bc.Eff.Attributes[name]; ok {
 				desc = as.Description.Value
 			} else if bc.Eff.Any != nil {
